@@ -136,7 +136,7 @@ func TestVerif_C01_Sched(t *testing.T) {
 	defer r.Finish()
 	r.Rule = "stateless DFS over thread interleavings at every lock / atomic / sync.Map operation of pkg/server and every lock of internal/pkg/table (iterative context bounding), threads = real receive loop of a peer, FSM loop tail delivering a state change, management critical section; each complete execution checked (every established bot's view under every sender coalescing partition == from-scratch export); non-trivial = distinct final daemon state reached"
 	r.Assumptions = append(r.Assumptions,
-		"scheduling points at synchronisation operations only (unsynchronised accesses are the race pass of C20)",
+		"scheduling points at synchronisation operations only (unsynchronised accesses are the race pass of C20)", "alternatives are taken only at operations on objects shared conflictingly by two threads in the execution at hand (partial-order reduction)",
 		"RWMutex writer preference is not modelled", "FSM goroutines are replaced by harness threads executing the same statements")
 	if r.ReplayPath() != "" {
 		var rp schedReplay
